@@ -52,6 +52,8 @@ def plan(tier, seed):
 
 def enum_cases(L, G):
     """Yield (samples tuple, labels tuple, k) in a fixed order."""
+    for k in (1, 2, 3):
+        yield (), (), k          # the empty train: every count is zero
     for n in range(1, L + 1):
         ks = [2] + ([3] if n <= L - 1 else []) + ([4] if n <= L - 2 else [])
         for train in itertools.combinations_with_replacement(range(G + 1), n):
@@ -148,6 +150,15 @@ def run_case(case, ctx):
     else:
         exp = ref.one_sided(samples.tolist(), lab_pos.tolist(), nC, b, h)
 
+    if len(samples) == 0:
+        # empty train: zero counts for every requested id (cluster_ids=None is skipped: nothing to list)
+        ctx.count(1, cell=('len0', 'k%d' % k))
+        for sym in (False, True):
+            r0 = call(correlograms, np.zeros(0), np.zeros(0, dtype=np.int64), cluster_ids=list(id_list), sample_rate=rate,
+                      bin_size=bin_size, window_size=window, symmetrize=sym)
+            if not r0.ok or np.asarray(r0.value).shape != (nC, nC, (2 * h + 1) if sym else (h + 1)) or np.asarray(r0.value).any():
+                ctx.violation('empty_train', case, 'empty train: %r' % (r0.exc if not r0.ok else np.asarray(r0.value).shape,), {'empty': True}, tb=r0.tb)
+        return
     diffs = np.diff(samples)
     has_tie = bool((diffs == 0).any())
     edge = bool(exp[:, :, h].sum() > 0) if h > 0 else False
